@@ -28,6 +28,10 @@ pub struct Case {
     /// parameters that was first fed these inputs (empty = plain `clone()`)
     #[serde(default)]
     pub clone_from_dirt: Vec<Inp>,
+    /// the clone_from target was built with every period larger by this much (its buffers are longer than
+    /// the source's); after clone_from it must be indistinguishable from the source all the same
+    #[serde(default)]
+    pub dirt_period_delta: usize,
     pub ops: Vec<COp>,
     /// the clone is taken just before ops[clone_at]
     pub clone_at: usize,
@@ -62,7 +66,11 @@ pub fn check(c: &Case, ctx: &mut Ctx) -> Result<(), Failure> {
             clone = Some(if c.clone_from_dirt.is_empty() {
                 orig.clone()
             } else {
-                let mut t = fresh(&c.cfg)?;
+                let mut tcfg = c.cfg.clone();
+                for q in tcfg.p.iter_mut() {
+                    *q += c.dirt_period_delta;
+                }
+                let mut t = fresh(&tcfg)?;
                 for d in &c.clone_from_dirt {
                     feed(&mut t, d);
                 }
@@ -185,12 +193,12 @@ fn strategy(cap: usize, maxops: usize) -> BoxedStrategy<Case> {
             let post = vec((prop_oneof![4 => Just(0u8), 4 => Just(1u8), 1 => Just(2u8)], inp_post()), post_len);
             let other = any_kind().prop_flat_map(|k| cfg_for(k, 24, multiplier_any()));
             let dirt = prop_oneof![2 => Just(vec![]), 1 => vec(inp_special(3), 1..=(2 * w + 5))];
-            (Just(cfg), pre, post, other, any::<bool>(), dirt)
+            (Just(cfg), pre, post, other, any::<bool>(), dirt, prop_oneof![3 => Just(0usize), 1 => 1usize..4, 1 => Just(w)])
         })
-        .prop_map(|(cfg, pre, post, other, th, clone_from_dirt)| {
+        .prop_map(|(cfg, pre, post, other, th, clone_from_dirt, dirt_period_delta)| {
             let clone_at = pre.len();
             let ops = pre.into_iter().chain(post).map(|(target, inp)| COp { target, inp }).collect();
-            Case { cfg, other: Some(other), replay_in_new_thread: th, clone_from_dirt, ops, clone_at }
+            Case { cfg, other: Some(other), replay_in_new_thread: th, clone_from_dirt, dirt_period_delta, ops, clone_at }
         })
         .boxed()
 }
@@ -327,7 +335,53 @@ pub fn run(g: &mut Global) {
             let clone_at = (j % (l as u64 + 1)) as usize;
             let d = digits(j / (l as u64 + 1), 6, l);
             let ops = d.iter().map(|&x| COp { target: (x / 3) as u8, inp: letter(EALPHA[x % 3]) }).collect();
-            Case { cfg: cfg_small(kind, n), other: None, replay_in_new_thread: false, clone_from_dirt: if i % 2 == 0 { vec![] } else { vec![letter(7.0), letter(2.0), letter(9.0)] }, ops, clone_at }
+            Case { cfg: cfg_small(kind, n), other: None, replay_in_new_thread: false, clone_from_dirt: if i % 2 == 0 { vec![] } else { vec![letter(7.0), letter(2.0), letter(9.0)] }, dirt_period_delta: (i % 3) as usize, ops, clone_at }
+        },
+        &check,
+    );
+    // clone_from matrix: every (target history, source history) pair of sequences over three values, up to a
+    // little more than one window each — targets older, younger and exactly as old as the source, with the same
+    // values in another order (a clone_from that reuses the target's buffers, copies only "the filled part", or
+    // skips the copy when both "run in step" shows only on particular pairs)
+    let ml3 = g.tier.pick(4usize, 5usize);
+    let nseq = |ml: usize| (ipow(3, ml + 1) - 1) / 2;
+    let (s2, s3) = (nseq(4), nseq(ml3));
+    let per2 = s2 * s2 * 2;
+    let per3 = s3 * s3 * 2;
+    fn seq_of(mut idx: u64, ml: usize) -> Vec<usize> {
+        for l in 0..=ml {
+            let c = ipow(3, l);
+            if idx < c {
+                return digits(idx, 3, l);
+            }
+            idx -= c;
+        }
+        vec![]
+    }
+    g.exhaustive(
+        "clone_from_matrix",
+        (per2 + per3) * 22,
+        &move |i| {
+            let kind: Kind = ALL_KINDS[(i % 22) as usize];
+            let r = i / 22;
+            let (n, ml, sn, r) = if r < per2 { (2usize, 4usize, s2, r) } else { (3usize, ml3, s3, r - per2) };
+            let cont = r % 2;
+            let r = r / 2;
+            let vals = [1.0, 2.0, 3.0];
+            let src = seq_of(r % sn, ml);
+            let dirt = seq_of(r / sn, ml);
+            let delta = [0usize, 0, 1, 2][((r % sn + r / sn) % 4) as usize];
+            let mut ops: Vec<COp> = src.iter().map(|&x| COp { target: 0, inp: letter(vals[x]) }).collect();
+            let clone_at = ops.len();
+            for j in 0..n + 2 {
+                let v = if cont == 0 { vals[(j + 1) % 3] } else { vals[(2 * j) % 3] };
+                ops.push(COp { target: 0, inp: letter(v) });
+                ops.push(COp { target: 1, inp: letter(v) });
+            }
+            // an empty dirt list would mean plain clone(): keep clone_from by feeding then resetting nothing — use
+            // a one-element history instead (the empty target is covered by the enum stage)
+            let dirt: Vec<Inp> = if dirt.is_empty() { vec![letter(2.0)] } else { dirt.iter().map(|&x| letter(vals[x])).collect() };
+            Case { cfg: cfg_small(kind, n), other: None, replay_in_new_thread: false, clone_from_dirt: dirt, dirt_period_delta: delta, ops, clone_at }
         },
         &check,
     );
